@@ -179,6 +179,24 @@ func TLSKeyStore(keyName string) dsig.X509KeyStore {
 	return dsig.TLSCertKeyStore(tls.Certificate{Certificate: [][]byte{Cert(keyName).Raw}, PrivateKey: RSAKey(keyName)})
 }
 
+// PlainKeyStore is a field-style key store of a type of the deployment's own (anything that
+// implements dsig.X509KeyStore is allowed in the fields), not dsig.TLSCertKeyStore.
+type PlainKeyStore struct {
+	Signer *rsa.PrivateKey
+	Cert   []byte
+	Err    error
+}
+
+func (p *PlainKeyStore) GetKeyPair() (*rsa.PrivateKey, []byte, error) { return p.Signer, p.Cert, p.Err }
+
+// FieldKeyStore is TLSKeyStore, or the same key and certificate in a PlainKeyStore.
+func FieldKeyStore(keyName string, plain bool) dsig.X509KeyStore {
+	if plain {
+		return &PlainKeyStore{Signer: RSAKey(keyName), Cert: Cert(keyName).Raw}
+	}
+	return TLSKeyStore(keyName)
+}
+
 // TLSKeyStoreChain is TLSKeyStore with a second certificate (another key's) after the leaf,
 // as a deployment that configures a certificate chain would have.
 func TLSKeyStoreChain(keyName, extra string) dsig.X509KeyStore {
@@ -226,6 +244,8 @@ type SPConf struct {
 	NilClock               bool     `json:"nil_clock,omitempty"`
 	// EncCertState replaces the certificate bytes of the field key store: "empty", "garbage", "nocert"
 	EncCertState string `json:"enc_cert_state,omitempty"`
+	// PlainStores: the field key stores are of a custom type instead of dsig.TLSCertKeyStore
+	PlainStores bool `json:"plain_key_stores,omitempty"`
 }
 
 // Live mode: while it is on, Build hands out ONE long-lived instance per configuration class
@@ -281,7 +301,10 @@ func (c SPConf) build() *saml2.SAMLServiceProvider {
 	case "-":
 		sp.SPKeyStore = nil
 	default:
-		sp.SPKeyStore = TLSKeyStore(c.EncField)
+		sp.SPKeyStore = FieldKeyStore(c.EncField, c.PlainStores)
+	}
+	if c.EncField == "" && c.PlainStores {
+		sp.SPKeyStore = FieldKeyStore("KS", true)
 	}
 	if c.EncCertState != "" && c.EncField != "-" {
 		k := c.EncField
@@ -298,6 +321,13 @@ func (c SPConf) build() *saml2.SAMLServiceProvider {
 			chain = nil
 		}
 		sp.SPKeyStore = dsig.TLSCertKeyStore(tls.Certificate{Certificate: chain, PrivateKey: RSAKey(k)})
+		if c.PlainStores {
+			ps := &PlainKeyStore{Signer: RSAKey(k)}
+			if len(chain) > 0 {
+				ps.Cert = chain[0]
+			}
+			sp.SPKeyStore = ps
+		}
 	}
 	if c.EncSetter != "" {
 		ks := SetterKeyStore(c.EncSetter)
@@ -315,7 +345,7 @@ func (c SPConf) build() *saml2.SAMLServiceProvider {
 		}
 	}
 	if c.SigField != "" {
-		sp.SPSigningKeyStore = TLSKeyStore(c.SigField)
+		sp.SPSigningKeyStore = FieldKeyStore(c.SigField, c.PlainStores)
 	}
 	if c.SigSetter != "" {
 		if err := sp.SetSPSigningKeyStore(SetterKeyStore(c.SigSetter)); err != nil {
